@@ -85,7 +85,7 @@ func genBuf(r *kit.Rand, tier kit.Tier) bufCase {
 		case 5:
 			c.Ops = append(c.Ops, Op{K: "query"})
 		case 6:
-			c.Ops = append(c.Ops, Op{K: "json"})
+			c.Ops = append(c.Ops, Op{K: "json", A: r.Intn(2)})
 		case 7:
 			c.Ops = append(c.Ops, Op{K: "snapshot"})
 		case 8:
@@ -223,6 +223,14 @@ func execBuf(c bufCase, _ *kit.Env) kit.Outcome {
 			}
 
 			var nb queueing.Buffer[elem]
+
+			if op.A == 1 {
+				// restore into a live buffer that already holds other content
+				nb = queueing.NewBuffer[elem]("Dirty", c.Cap+2)
+				nb.PushTyped(elem{ID: -3, Tag: "stale"})
+				nb.PushTyped(elem{ID: -4, Tag: "stale"})
+			}
+
 			if err := json.Unmarshal(raw, &nb); err != nil {
 				return fail(i, "json", "unmarshal: %v", err)
 			}
